@@ -123,6 +123,17 @@ def _case(draw):
             focus['prio'] = -1
         focus['mdstyle'] = draw(st.sampled_from(['short', 'braces', 'hex']))
         case['focus'] = focus
+        if mode == 'b' and draw(st.booleans()):
+            # an intermediate stage that raises the priority of an existing container while overwriting only some of its
+            # entries: afterwards a container can outrank its own older children (only reachable through a merge history)
+            mpaths = [list(p) for p, n in tdoc.walk(older) if n['t'] == 'map' and not _is_call(n) and p
+                      and not any(_is_call(_get(older, list(p[:i]))) for i in range(len(p)))]
+            if mpaths:
+                mp_ = mpaths[draw(st.integers(0, len(mpaths) - 1))]
+                tgt = _get(older, mp_)
+                ks = [k for k, _ in tgt['items']] + [draw(st.sampled_from(KEYS))]
+                chosen = draw(st.lists(st.sampled_from(ks), min_size=1, max_size=2, unique=True))
+                case['mid'] = {'path': mp_, 'items': [[k, 50 + i] for i, k in enumerate(chosen)]}
     elif mode == 'c':
         focus = draw(_content(list(path), kind=None if path else 'map'))
         focus['del'] = False
@@ -297,11 +308,37 @@ def _build(texts):
     return 'err', res
 
 
+def apply_mid(older, mid):
+    """Older tree after the intermediate stage `path: !force {k: v, ...}` (per-leaf: the written entries now carry
+    priority 1, everything else keeps its own; the container's own priority does not matter to a per-leaf oracle)."""
+    import copy
+    out = copy.deepcopy(older)
+    tgt = _get(out, mid['path'])
+    for k, v in mid['items']:
+        node = tdoc.sc(v, prio=1)
+        hit = [i for i, (kk, _) in enumerate(tgt['items']) if kk == k and type(kk) is type(k)]
+        if hit:
+            tgt['items'][hit[0]][1] = node
+        else:
+            tgt['items'].append([k, node])
+    return out
+
+
+def mid_doc(mid):
+    inner = tdoc.mp([(k, tdoc.sc(v)) for k, v in mid['items']], flow=True, prio=1)
+    return _wrap(mid['path'], inner)
+
+
 def run_case(case):
     mode, older, path = case['mode'], case['older'], case['path']
     t_old = tdoc.render(older)
+    if case.get('mid'):
+        t_old = t_old + tdoc.render(mid_doc(case['mid']))          # two documents in one source
+        older = apply_mid(older, case['mid'])
     old_ev = ev(older)
     labels = {'mode=' + mode, 'focus-depth=%d' % len(path)}
+    if case.get('mid'):
+        labels.add('three-stage-history')
     nontrivial = len(path) >= 1
     if mode in ('a', 'b', 'c'):
         focus = case['focus']
